@@ -375,7 +375,8 @@ def rule_render_columns(ck):
                 return "".join("".join(str(x) for x in e[1]) + "\n" for e in I.effects if e[0] == "print")
             ps = I.explore(thunk)
             if len(ps) != 1 or ps[0].kind != "return":
-                raise Unknown(f"GraphicalHandler on a fault at offset {p_} of {text!r}: {ps}")
+                ck.incomplete("reports::GraphicalHandler.__call__", f"GraphicalHandler on a fault at offset {p_} of {text!r}", ps)
+                continue
             out = ps[0].value
             m = _re.search(r"\x1b\[(\d+)G", out)
             nums = [int(x) for x in _re.findall(r"\x1b\[92m\s*(\d+)\x1b\[0m", out)]
@@ -440,6 +441,14 @@ def rule_spans(ck):
                                     "a diagnostic for this token underlines nothing, or the wrong place", construct=cons)
                 continue
             inner = text[pa:pb]
+            # Token.text() - what the branch encoder inspects and what 'you wrote ...' hints quote - is the text between the two positions
+            if t.cls.lookup("text")[0] is not None and "text" not in f:
+                try:
+                    tx = I.call_method(t, "text", [])
+                except Raised as ex_:
+                    tx = f"<{ex_.exc.name}>"
+                if tx != inner:
+                    ck.violation("types::Token.text", f"in {text.strip()!r} the {t.cls.name} token at {pa}..{pb} reports its own text as {tx!r}; the source there is {inner!r}", construct="Token.text")
             if t.cls.name == "Symbol" and isinstance(f.get("name"), str) and inner.strip() and inner.strip().lower().rstrip(":").strip() != f["name"].lower():
                 ck.violation(where, f"in {text.strip()!r} the symbol {f['name']!r} spans {pa}..{pb}, which is the text {inner!r}", construct=cons)
             if t.cls.name == "Number" and isinstance(f.get("representation"), str) and not (inner.strip() and f["representation"].strip().lower().endswith(inner.strip().lower())):     # a folded sign ('-1') stays outside the span of its digits
